@@ -169,7 +169,7 @@ def mutate(rng, a):
 
 def run(ctx):
     rng = ctx.rng
-    n = (200 if ctx.quick else 3000) * (3 if ctx.search else 1)
+    n = (450 if ctx.quick else 3000) * (3 if ctx.search else 1)
     for _ in range(n):
         a, o, t = gen_valid(rng, ctx.quick)
         do_case(ctx, {"ast": a, "stream": "valid"})
